@@ -308,14 +308,22 @@ class Node(
         self._user_data: dict[str, Any] = {}
         # A place for power-users to bypass node-injection
 
-        self._setup_node()
-        self._after_node_setup(
-            *args,
-            delete_existing_savefiles=delete_existing_savefiles,
-            autoload=autoload,
-            autorun=autorun,
-            **kwargs,
-        )
+        try:
+            self._setup_node()
+            self._after_node_setup(
+                *args,
+                delete_existing_savefiles=delete_existing_savefiles,
+                autoload=autoload,
+                autorun=autorun,
+                **kwargs,
+            )
+        except BaseException:
+            # This constructor is not going to hand anybody an object, but
+            # `Lexical.__init__` has already made us a child: leave no half-built node
+            # behind in the parent
+            if self.parent is not None:
+                self.parent.remove_child(self)
+            raise
 
     @classmethod
     def parent_type(cls) -> type[Composite]:
